@@ -157,7 +157,21 @@ func init() {
 	// EqBytes(a, b []byte) bool without forking (equal lengths required to be concrete)
 	reg("EqBytes", func(fr *frame, a []value) value {
 		p := fr.i.p
-		x, y := a[0].([]value), a[1].([]value)
+		if ax, ok := a[0].(*absBytes); ok {
+			if ay, ok := a[1].(*absBytes); ok {
+				// minimal big-endian encodings are equal iff the integers are
+				c := p.ctx
+				eq := c.Eq(ax.t, ay.t)
+				// two RFC 8032 point encodings: equal iff the points are (the encoding is injective)
+				g1, ok1 := p.encTab[c.Int2BV(256, ax.t)]
+				g2, ok2 := p.encTab[c.Int2BV(256, ay.t)]
+				if ok1 && ok2 {
+					p.axiom("point-encoding-injective", c.Eq(eq, c.And(p.smartEq(g1.d, g2.d), c.Eq(g1.tau, g2.tau))))
+				}
+				return normBool(eq)
+			}
+		}
+		x, y := p.flatBytes(fr, a[0]), p.flatBytes(fr, a[1])
 		if len(x) != len(y) {
 			return false
 		}
@@ -183,7 +197,19 @@ func init() {
 	// CongMod(a, b, m): a ≡ b (mod m) with the fraction lemma applied
 	reg("CongMod", func(fr *frame, a []value) value {
 		p := fr.i.p
-		return normBool(p.congruent(p.bigTerm(fr, a[0]), p.bigTerm(fr, a[1]), p.bigTerm(fr, a[2])))
+		x, y := p.bigTerm(fr, a[0]), p.bigTerm(fr, a[1])
+		// two coordinates compared (r = R.x mod q against the recomputed point): instantiate the
+		// coordinate injectivity lemmas for that pair
+		strip := func(t *smt.Term) *smt.Term {
+			for t.Op == "mod" && t.Args[0].Op == "app" {
+				t = t.Args[0]
+			}
+			return t
+		}
+		if sx, sy := strip(x), strip(y); sx.Op == "app" && sy.Op == "app" {
+			p.pointEqLemma(sx, sy)
+		}
+		return normBool(p.congruent(x, y, p.bigTerm(fr, a[2])))
 	})
 	reg("InRange", func(fr *frame, a []value) value {
 		// InRange(x, lo, hi): lo <= x < hi
